@@ -22,6 +22,9 @@ mod helpers;
 
 use helpers::*;
 
+#[cfg(blsful_verif)]
+pub use helpers::verif_hooks;
+
 mod aggregate_signature;
 mod elgamal_ciphertext;
 mod elgamal_decryption_share;
